@@ -43,7 +43,7 @@ ASSUMPTIONS = [
     "a per-process position, so only the buffered variants are visible to this oracle",
     "ptrace is permitted in the sandbox (verified); if strace cannot start, the strace part counts as inconclusive",
 ]
-NBASES = {"quick": 16, "thorough": 120}
+NBASES = {"quick": 24, "thorough": 120}
 SHARD_TIMEOUT = {"quick": 400, "thorough": 3000}
 SHARD_BUDGET_S = {"quick": 60, "thorough": 1200}
 MOD = "vf.checks.c18"
@@ -64,7 +64,38 @@ VARIANTS = ["RandomLineAccessFile", "MapAccessFile", "MemoryMappedRandomLineAcce
             "MapAccessFile", "MemoryMappedRecordFile", "RandomLineAccessFile"]
 
 
+# bases 16-23: combinations that the periodic assignment below never produces (its periods 3, 4 and 6 against the 8 variants:
+# e.g. twin objects would only ever meet the memory mapped variants)
+TABLE = {16: ("RandomLineAccessFile", "os.fork", {"twin_objects": True, "children": 4}),
+         17: ("RecordFile", "mp", {"twin_objects": True, "child_thread": True, "children": 4}),
+         18: ("MapAccessFile", "os.fork", {"twin_objects": True, "children": 4}),
+         19: ("RandomLineAccessFile", "os.fork", {"child_thread": True, "thread_reads_during_fork": 2}),
+         20: ("RandomLineAccessFile", "os.fork", {"fd_tight": True}),
+         21: ("MemoryMappedRandomLineAccessFile", "grand", {"child_thread": True, "other_object": "child_first"}),
+         22: ("RecordFile", "os.fork", {"fd_tight": True}),
+         23: ("MapAccessFile", "os.fork", {"fd_tight": True})}
+
+
 def gen_base(rng, tier, index):
+    if index >= 16:
+        base = gen_base(rng, tier, index % 16)
+        off = {"thread_reads_during_fork": None, "iter_across_fork": None, "other_object": None, "fd_tight": False, "twin_objects": False,
+               "child_thread": False, "global_start_method": None}
+        if index in TABLE:
+            v, style, opts = TABLE[index]
+            base.update(off)
+            base.update(variant=v, fork_style=style, **opts)
+        else:
+            # thorough: the options drawn independently of the variant
+            base.update(off)
+            base.update(variant=VARIANTS[index % len(VARIANTS)], fork_style=rng.choice(["os.fork", "mp", "grand"]),
+                        twin_objects=rng.random() < 0.3, child_thread=rng.random() < 0.3,
+                        thread_reads_during_fork=rng.randrange(9) if rng.random() < 0.25 else None,
+                        iter_across_fork=rng.randrange(50) if rng.random() < 0.35 else None,
+                        other_object=rng.choice([None, None, "parent_before_fork", "child_first"]), fd_tight=rng.random() < 0.25,
+                        global_start_method=rng.choice(["spawn", "forkserver"]) if rng.random() < 0.15 else None,
+                        first_follows_parent=rng.random() < 0.5)
+        return base
     v = VARIANTS[index % len(VARIANTS)]
     return {"kind": "forkread", "pool": "forkread", "variant": v, "nlines": rng.choice([12, 25, 60]),
             "children": rng.choice([1, 2, 3, 4, 8]) if tier == "thorough" else rng.choice([1, 2, 3, 4]),
